@@ -41,6 +41,10 @@ def check(ctx, report):
     report.floor('C05.R9', 120, 'composer definitions')
     absent_stays_absent(ctx, report)
     url_projection(ctx, report)
+    # a timestamp that is read back as another instant composes to other bytes than were accepted (shared with C11.R5)
+    from .c11 import flags_and_timestamps
+    report.rule('C05.R10', 'timestamps and flag sets: the value read composes to the bytes it was read from, over the tabulated widths')
+    flags_and_timestamps(ctx, report, R4='C05.R10', R5='C05.R10')
     from .c18 import name_value_composers
     name_value_composers(ctx, report, rule='C05.R5')
     from .c08 import txt_chunks
